@@ -68,6 +68,8 @@ def family():
 def run(rep, tier):
     rep.encoded("crates/s3s/src/ops/signature.rs", "SignatureContext::check, v4_check, v4_check_presigned_url (all paths)")
     rep.encoded("crates/s3s/src/sig_v4/presigned_url_v4.rs", "parse_expires (Kani), PresignedUrlV4::parse (family)")
+    import C05
+    C05.canonical(rep, presigned=True)
     sigprops.check_paths(rep, "v4-presigned", "C06 paths")
     kspec.run_spec(rep, "C06", tier, budget_s=400)
     sigprops.run_family(rep, "C06", family(), label="presigned family")
